@@ -1,3 +1,4 @@
 pub mod civil;
 pub mod round;
 pub mod dur;
+pub mod date;
